@@ -155,7 +155,9 @@ def stage_race(ctx):
 
 
 def install(CONFIG, EXTRA_TB, ASSUME):
-    CONFIG.setdefault("C13", {}).update({"shard": 200, "structural": structural, "stages": [stage_race], "level": "proof"})
+    cfg = CONFIG.setdefault("C13", {})
+    cfg.update({"shard": 200, "structural": structural, "level": "proof"})
+    cfg.setdefault("stages", []).insert(0, stage_race)   # other plug-ins (loaded earlier or later) add their stages too
     EXTRA_TB.setdefault("C13", []).extend([
         "interleaving semantics: one event per step, sync.Mutex / sync.RWMutex as in Model/ConcEvents.v (Lock waits for no writer and no reader, RLock for no writer, Unlock releases whoever holds); that a data-race-free Go program behaves as some interleaving (Go memory model, DRF-SC) and everything below the events (map implementation, allocator, scheduler) is NOT proved: it is observed by the -race stress stage (2-32 goroutines, GOMAXPROCS swept in the thorough tier) — this is why the claim is partial",
         "translator harness/prop_c13.go c13sites (go/ast + parser identifier resolution, no type checker): linearises structured control flow per function (loops zero or one iteration with loop-invariant lock state, defers replayed at returns, function literals as separate rows, by-name call graph for Call events); tracked names: package vars cache, functions, immediateFunctions, topLevelFunctions, mut; fields vars, varsMut. It trusts that no other alias of these objects exists (taking their address or passing them to a call is reported as a write) and that no panic escapes between Lock and Unlock (hypothesis parse_nopanic of the cache theorems, discharged for the real parser by C09's parse_all_nopanic)",
